@@ -17,6 +17,7 @@ import json
 from .. import core, tlaval
 
 RESET_CC = [(ch, cc) for ch in range(16) for cc in (123, 121)]
+PANIC_CC = [(ch, 120) for ch in range(16)]
 
 
 class Hang(Exception):
@@ -36,6 +37,7 @@ INVARIANT DrainBeforeStop
 INVARIANT IterEndsCleanly
 INVARIANT NonBlockingNeverWaits
 INVARIANT ReturnsWhenDeliverable
+INVARIANT NoTrafficAfterClose
 INVARIANT Emit
 CHECK_DEADLOCK FALSE
 """ % (kind, 'TRUE' if autoreset else 'FALSE', maxscript, maxcalls)
@@ -128,6 +130,13 @@ def abstract_log(world, kind, sent_objs):
             out.append(pre + 'reset')
             i += 32
             continue
+        run = log[i:i + 16]
+        if (len(run) == 16 and all(x[1] == 'send' for x in run) and
+                [(x[2].channel, x[2].control) if x[2].type == 'control_change' else None
+                 for x in run] == PANIC_CC and all(x[2].value == 0 for x in run)):
+            out.append(pre + 'panic')
+            i += 16
+            continue
         if not sent:
             return out, 'device saw an unexpected message %r' % (msg,)
         m, orig = sent.pop(0)
@@ -196,6 +205,12 @@ def replay_history(kind, autoreset, script, hist, fclosed, fq, flog):
                     got_k, got_v = 'list', [ident(r, kind) for r in port.iter_pending()]
                 elif op == 'close':
                     port.close()
+                    got_k = 'ok'
+                elif op == 'reset':
+                    port.reset()
+                    got_k = 'ok'
+                elif op == 'panic':
+                    port.panic()
                     got_k = 'ok'
                 elif op == 'exit':
                     with port as p:
